@@ -1120,7 +1120,11 @@ impl<T: Transport, Env: UtpEnvironment> VirtualSocket<T, Env> {
                 return Ok(Default::default());
             }
             (Closed, _) => {
-                return Err(Error::BugRecvInClosed);
+                // The task can outlive the close handshake: the last ACK may be waiting for the
+                // socket to become writable, or received data for the reader to make room.
+                // A late packet (e.g. the peer's retransmitted FIN) is not a bug: drop it.
+                trace!("connection is closed, ignoring packet");
+                return Ok(Default::default());
             }
             (SynReceived, _) => return Err(Error::BugUnexpectedPacketInSynReceived),
             (SynAckSent { .. }, ST_DATA | ST_STATE) => {
